@@ -83,6 +83,14 @@ class Prop(PropBase):
             else:
                 data = b"".join(rng.choice([G.item_bytes(G.random_item(rng)), G.malformed(rng, 10)]) for _ in range(rng.randrange(1, 6)))
             run = G.chunkings(rng, data, "random")
+            if i % 4 == 1:
+                run = G.with_ops(rng, run)          # output-side operations between the deliveries
+            if i % 4 == 2:
+                # two connections multiplexed on one thread, the second one busy with key sequences cut into pieces
+                other = b"".join(G.item_bytes(it) for it in G.random_items(rng, rng.randrange(1, 12)))
+                cs.append(Case("J " + run + " / " + G.chunkings(rng, other, "bytes" if i % 8 == 2 else "random"), cfgs=["C20"], tag="partitioned-streams:multiplexed"))
+                continue
             cs.append(Case("I " + rng.choice(["", "", "!", "!!"]) + run, cfgs=["C20"], tag="partitioned-streams"))
         cs += G.numeric_sweep("C20")
+        cs += G.parameter_shape_sweep(tier, "C20")
         return cs
